@@ -18,7 +18,7 @@ from simverif.core.rng import stream
 
 ID = 'C10'
 LEVEL = 'exploration'
-TIERS = {'quick': {'runs': 1200}, 'thorough': {'seconds': 900}}
+TIERS = {'quick': {'runs': 3000}, 'thorough': {'seconds': 900}}
 DET_PAIRS_PER_SLOT = 2
 RULE = ("one run = one session set between blob-exchange peers on simulated TCP. family `honest`: real server "
         "holding 1..4 verified blobs (1 byte .. 2 MiB; random, all-'}' or JSON-looking bytes), 1..3 real clients "
@@ -86,6 +86,13 @@ def gen(run_seed, tier):
     for b in blobs:
         if sc['net']['chunk_mode'] == 'bytes':
             b['n'] = min(b['n'], 3000)
+        if fam == 'hostile_server' and sc['net']['chunk_mode'] == 'bytes':
+            # ... and with 1-byte fragments that re-parse happens per byte (cubic): tiny blobs only
+            b['n'] = min(b['n'], 300 if b['kind'] == 'rand' else 60)
+        if fam == 'hostile_server':
+            # when a header is not accepted the client re-parses its growing buffer on every '}' of the body
+            # (quadratic wall-clock cost, a performance matter): keep those sessions small
+            b['n'] = min(b['n'], 100_000)
         if b['kind'] in ('brace', 'json'):
             # the client's response parser retries json.loads on every '}' of a chunk (quadratic wall-clock cost;
             # a performance matter outside this technique) - keep such blobs small so runs stay cheap
@@ -613,9 +620,10 @@ def execute(scenario, keep_trace=False):
             outcome = 'returned'
             try:
                 if downloader is not None:
-                    # the downloader retries a banned peer for ever when it is the only one: bound it ourselves
+                    # the downloader retries its only peer for ever (at network speed when request_blob ends with
+                    # CancelledError, which bypasses its ban list): bound the session ourselves
                     try:
-                        await asyncio.wait_for(downloader.download_blob(h, length), bound * 3)
+                        await asyncio.wait_for(downloader.download_blob(h, length), min(bound, 12.0) + 8.0)
                     except asyncio.TimeoutError:
                         outcome = 'downloader_gave_up'
                 else:
